@@ -178,6 +178,9 @@ class CallMixin:
                     outs.append(ANY)
                 for n in names:
                     outs.append(self.call_builtin(n, pos, kw, star, dstar, node, env, frame))
+            elif tag == "bmeth" and fv.cset():
+                for cc in sorted(fv.cset(), key=str):
+                    outs.append(self.call_value(replace(fv, types=frozenset({"bmeth"}), const=cc), pos, kw, star, dstar, node, env, frame))
             elif tag == "bmeth":
                 c = fv.const
                 if c and c[0] == "meth":
@@ -241,7 +244,13 @@ class CallMixin:
                 if fv is not None and not c0.lookup_method(name):
                     outs.append(self.call_value(fv, pos, kw, star, dstar, node, env, frame)); continue
                 found = False
-                for k in self._runtime_classes(recv, tag[5:]):
+                rclasses = self._runtime_classes(recv, tag[5:])
+                groups = {}
+                for k in rclasses:
+                    owner, v = k.lookup(name)
+                    if isinstance(v, FuncInfo):
+                        groups.setdefault(v.qualname, (v, []))[1].append(k)
+                for k in rclasses:
                     owner, v = k.lookup(name)
                     if isinstance(v, FuncInfo):
                         found = True
@@ -249,10 +258,14 @@ class CallMixin:
                         if sk in seen:
                             continue
                         seen.add(sk)
-                        selfv = recv if recv.fields is not None else replace(recv, types=frozenset({f"inst:{k.qualname}"}), elem=None, key=None, tup=None, const=recv.const if recv.const and recv.const[0] == "enum" else None)
-                        if recv.fields is None and v.cls is not None and k is not v.cls:
-                            # generic receiver: analyse once per implementation with the implementing class' view
-                            selfv = replace(selfv, types=frozenset({f"inst:{k.qualname}"}))
+                        if recv.fields is not None:
+                            selfv = recv
+                        else:
+                            # generic receiver: one analysis per implementation, with self ranging over
+                            # every run-time class that resolves the method to this implementation
+                            ks = groups[v.qualname][1]
+                            selfv = replace(recv, types=frozenset(f"inst:{x.qualname}" for x in ks), elem=None, key=None, tup=None,
+                                            const=recv.const if recv.const and recv.const[0] == "enum" else None)
                         if v.kind == "staticmethod":
                             s = self.invoke(v, pos, kw, star, dstar, node, env, frame)
                         elif v.kind == "classmethod":
@@ -634,6 +647,8 @@ class CallMixin:
                 upd(replace(recv, nonempty=False))
                 return NONE
             if name == "items":
+                if ky.is_bottom and el.is_bottom:
+                    return mk("iter")
                 return mk("iter", elem=mk("tuple", tup=(ky if not ky.is_bottom else ANY, el if not el.is_bottom else ANY)), nonempty=recv.nonempty, taint=tt and max(tt, 1), key=None)
             if name == "keys":
                 return mk("iter", elem=ky if not ky.is_bottom else None, nonempty=recv.nonempty, taint=tt)
